@@ -139,6 +139,10 @@ pub mod verif {
 #[cfg(redb_verif)]
 mod verif_c01;
 
+/// Verification hook for C08/C20 (I/O latch call log), only present under `--cfg redb_verif`
+#[cfg(all(redb_verif, not(redb_no_std)))]
+pub mod verif_c08;
+
 // core cannot tell whether the current thread is unwinding, and redb's Drop impls consult that in
 // opposite ways, so neither constant is safe to assume. Restricted to panic = "abort" instead,
 // where nothing unwinds and panicking() below is vacuously correct.
